@@ -56,9 +56,22 @@ theorem pc_builtin (h : Hash) (k : PoolKey) (hk : k ∈ [poolMelSym, poolMelErg,
   · simp [pc, poolMelErg_eq]
   · simp [pc, poolErgSym_eq]
 
-/-- conditionally creating an absent pool that holds nothing of `d` -/
+theorem poolsTotal_set_zero {pools : AList PoolKey PoolState} (hn : (pools.map (·.1)).Nodup) (d : Denom)
+    (k : PoolKey) (p : PoolState) (hz : ∀ q, pc d (k, q) = 0) :
+    poolsTotal (pools.set k p) d = poolsTotal pools d := by
+  have h1 := poolsTotal_set hn d k p
+  have h2 : AList.at? pools (pc d) k = 0 := by
+    unfold AList.at?
+    cases pools.get k with
+    | none => rfl
+    | some q => exact hz q
+  rw [h2, hz p] at h1
+  omega
+
+/-- conditionally creating a pool that is absent or records no liquidity, under a key whose pools hold nothing
+    of `d` -/
 theorem setIf_back (pools : AList PoolKey PoolState) (c : Bool) (k : PoolKey) (p : PoolState) (d : Denom)
-    (hn : (pools.map (·.1)).Nodup) (hc : c = true → pools.get k = none) (hz : pc d (k, p) = 0) :
+    (hn : (pools.map (·.1)).Nodup) (hc : c = true → liqsAt pools k = 0) (hz : ∀ q, pc d (k, q) = 0) :
     ((if c then pools.set k p else pools).map (·.1)).Nodup ∧
     poolsTotal (if c then pools.set k p else pools) d = poolsTotal pools d ∧
     ∀ k0, liqsAt pools k0 ≤ liqsAt (if c then pools.set k p else pools) k0 := by
@@ -66,17 +79,14 @@ theorem setIf_back (pools : AList PoolKey PoolState) (c : Bool) (k : PoolKey) (p
   | false => exact ⟨hn, by simp, fun _ => Nat.le_refl _⟩
   | true =>
     simp only [if_true]
-    refine ⟨pools_nodup_set hn k p, ?_, ?_⟩
-    · have h1 := poolsTotal_set hn d k p
-      rw [AList.at?_none (hc rfl), hz] at h1
-      omega
-    · intro k0
-      by_cases e : k0 = k
-      · subst e
-        rw [liqsAt_none (hc rfl)]
-        exact Nat.zero_le _
-      · rw [liqsAt_set_ne _ _ e]
-        exact Nat.le_refl _
+    refine ⟨pools_nodup_set hn k p, poolsTotal_set_zero hn d k p hz, ?_⟩
+    intro k0
+    by_cases e : k0 = k
+    · subst e
+      rw [hc rfl]
+      exact Nat.zero_le _
+    · rw [liqsAt_set_ne _ _ e]
+      exact Nat.le_refl _
 
 theorem createBuiltins_back (s : State) (h : Hash) (hk : (s.pools.map (·.1)).Nodup) :
     ((createBuiltins s).pools.map (·.1)).Nodup ∧
@@ -84,16 +94,17 @@ theorem createBuiltins_back (s : State) (h : Hash) (hk : (s.pools.map (·.1)).No
     ∀ k0, liqsAt s.pools k0 ≤ liqsAt (createBuiltins s).pools k0 := by
   unfold createBuiltins
   simp only
-  obtain ⟨n1, t1, l1⟩ := setIf_back s.pools (s.pools.get poolMelSym).isNone poolMelSym builtinDefault (.custom h) hk
-    (fun h => Option.isNone_iff_eq_none.mp h) (pc_builtin h _ (by simp) _)
-  generalize (if (s.pools.get poolMelSym).isNone then s.pools.set poolMelSym builtinDefault else s.pools) = p1 at *
-  obtain ⟨n2, t2, l2⟩ := setIf_back p1 (p1.get poolMelErg).isNone poolMelErg builtinDefault (.custom h) n1
-    (fun h => Option.isNone_iff_eq_none.mp h) (pc_builtin h _ (by simp) _)
-  generalize (if (p1.get poolMelErg).isNone then p1.set poolMelErg builtinDefault else p1) = p2 at *
-  obtain ⟨n3, t3, l3⟩ := setIf_back p2 (s.tip902 && (p2.get poolErgSym).isNone) poolErgSym builtinDefault
+  obtain ⟨n1, t1, l1⟩ := setIf_back s.pools (builtinMissing s.pools poolMelSym) poolMelSym builtinDefault
+    (.custom h) hk (fun h => builtinMissing_true h) (pc_builtin h _ (by simp))
+  generalize (if builtinMissing s.pools poolMelSym = true then s.pools.set poolMelSym builtinDefault
+    else s.pools) = p1 at *
+  obtain ⟨n2, t2, l2⟩ := setIf_back p1 (builtinMissing p1 poolMelErg) poolMelErg builtinDefault (.custom h) n1
+    (fun h => builtinMissing_true h) (pc_builtin h _ (by simp))
+  generalize (if builtinMissing p1 poolMelErg = true then p1.set poolMelErg builtinDefault else p1) = p2 at *
+  obtain ⟨n3, t3, l3⟩ := setIf_back p2 (s.tip902 && builtinMissing p2 poolErgSym) poolErgSym builtinDefault
     (.custom h) n2
-    (fun h => Option.isNone_iff_eq_none.mp (by simp only [Bool.and_eq_true] at h; exact h.2))
-    (pc_builtin h _ (by simp) _)
+    (fun h => builtinMissing_true (by simp only [Bool.and_eq_true] at h; exact h.2))
+    (pc_builtin h _ (by simp))
   refine ⟨n3, by omega, fun k0 => ?_⟩
   have := l1 k0; have := l2 k0; have := l3 k0
   omega
@@ -122,18 +133,6 @@ theorem liqsAt_set_same {pools : AList PoolKey PoolState} {k' : PoolKey} {p p' :
   by_cases e : k = k'
   · subst e; rw [liqsAt_set_self, liqsAt_some hg, hl]
   · exact liqsAt_set_ne _ _ e
-
-theorem poolsTotal_set_zero {pools : AList PoolKey PoolState} (hn : (pools.map (·.1)).Nodup) (d : Denom)
-    (k : PoolKey) (p : PoolState) (hz : ∀ q, pc d (k, q) = 0) :
-    poolsTotal (pools.set k p) d = poolsTotal pools d := by
-  have h1 := poolsTotal_set hn d k p
-  have h2 : AList.at? pools (pc d) k = 0 := by
-    unfold AList.at?
-    cases pools.get k with
-    | none => rfl
-    | some q => exact hz q
-  rw [h2, hz p] at h1
-  omega
 
 /-- pegging replaces the MEL/SYM pool by one with the same recorded liquidity -/
 theorem processPegging_shape {s s' : State} (h : processPegging s = .ok s') :
